@@ -8,6 +8,9 @@
 #include <cstring>
 #include <exception>
 #include <map>
+#ifdef HEX_VERIF
+#include <functional>
+#endif
 #include <fstream>
 #include <iostream>
 #include <boost/format.hpp>
@@ -79,6 +82,19 @@ public:
     running(true), tracing(false), exitCode(0), lastPC(0), cycles(0),
     maxCycles(maxCycles) {}
 
+#ifdef HEX_VERIF
+  // Verification hooks: architectural state access and a per-instruction
+  // observer that may stop the run by returning false.
+  struct VerifState { uint32_t pc, areg, breg, oreg; };
+  VerifState verifGetState() const { return {pc, areg, breg, oreg}; }
+  void verifSetState(const VerifState &s) { pc = s.pc; areg = s.areg; breg = s.breg; oreg = s.oreg; running = true; }
+  uint32_t *verifMemory() { return memory.data(); }
+  std::function<bool(const Processor&)> verifObserver;
+  uint32_t verifLastInstr() const { return instr; }
+  uint32_t verifLastPC() const { return lastPC; }
+  size_t verifCycles() const { return cycles; }
+  bool verifRunning() const { return running; }
+#endif
   void setTracing(bool value) { tracing = value; }
   void setTruncateInputs(bool value) { truncateInputs = value; }
 
@@ -356,6 +372,11 @@ public:
           throw std::runtime_error("invalid instruction");
       }
       cycles++;
+#ifdef HEX_VERIF
+      if (verifObserver && !verifObserver(*this)) {
+        break;
+      }
+#endif
     }
     return exitCode;
   }
